@@ -14,7 +14,7 @@ An operand pattern the contract does not recognise makes the family untranslatab
 """
 import z3
 
-from fjvc.core import family
+from fjvc.core import family, apps_of
 from fjvc.interp import Obj, obj_class, obj_fields, Untranslatable
 from fjvc.lib import tree_map
 from fjvc.values import SV, SumT, UF, lift, to_real, R, I
@@ -123,7 +123,7 @@ def havoc_all(tree, tag):
     return tree_map(f, tree), cnt[0]
 
 
-@family("triangular/TriangularAffine", ["C01", "C02", "C07", "C09", "C11"])
+@family("triangular/TriangularAffine", ["C01", "C02", "C07", "C09", "C11", "C14"])
 def triangular_affine(ctx):
     props = ["C01", "C02", "C07", "C09", "C11"]
     for lower in (True, False):
@@ -192,6 +192,12 @@ def triangular_affine(ctx):
         if not okm:
             continue
         H = rng + pus[0].cond
+        # every array that determines the behaviour is a pytree LEAF: once all leaves are replaced (training, or loading saved
+        # leaves into a freshly constructed model) nothing of the constructor's own arguments is left in the maps (C14: no array
+        # hidden in a static field or a closure; C12: the optimiser reaches everything that is trainable)
+        mentions = [nm for nm, fsym in (("arr", A0), ("loc", L0)) if apps_of(fsym, [T.f(r_, c_), to_real(lift(u.loc))])]
+        ctx.oblige(f"C14/TriangularAffine[{tag}]/post/no_constructor_array_outlives_its_leaves", not mentions, [], props + ["C14"], kind="struct", fn=fq, replay=dict(kind="c14", cls="TriangularAffine", vars={}),
+                   note=f"after replacing every array leaf the unwrapped maps still mention the constructor argument(s) {mentions}" if mentions else None)
         off = (c_ > r_) if lower else (c_ < r_)
         ctx.oblige(f"C09/TriangularAffine[{tag}]/post/triangular_for_any_raw_values", z3.Implies(off, T.f(r_, c_) == 0), H, props, fn=fq, replay=rp)
         ctx.oblige(f"C11/TriangularAffine[{tag}]/post/positive_diagonal_for_any_raw_values", T.f(r_, r_) > 0, H, props, fn=fq, replay=rp, rounds=2)
